@@ -189,6 +189,26 @@ def run(ctx, chk):
             pa.ret in (("op", "add", "i64", ("arg", 0), ("arg", 1)), ("op", "add", "i64", ("arg", 1), ("arg", 0)))
         chk.ob("C20.signalling", "_cbor_safe_signaling_add path %d: sum returned only after _cbor_safe_to_add" % k, ok,
                "%s:%d" % (sa.file, sa.line), fn=sa.name, key="ssa:%d" % k)
+    # the overflow signal of a NESTED size (0) is never added up: wherever the result of a recursive sizing call is an operand
+    # of the signalling add, either the add itself answers 0 for a zero in that position (all of its non-zero paths know the
+    # operand positive) or the calling path has tested the nested size
+    guarded_pos = set()
+    for j_ in (0, 1):
+        if all(pa.ret == ("c", 0) or pa.st.known_positive(("arg", j_)) for pa in cache.get(sa.name)):
+            guarded_pos.add(j_)
+    for k, pa in enumerate(cache.get(ss.name, inline_static=True)):
+        for e in pa.calls("_cbor_safe_signaling_add"):
+            for j_, a_ in enumerate(e.args[:2]):
+                x_ = a_
+                while isinstance(x_, tuple) and x_[0] == "cast":
+                    x_ = x_[3]
+                if isinstance(x_, tuple) and x_[0] == "call" and x_[1] in _size_names:
+                    ok = j_ in guarded_pos or pa.st.known_positive(x_)
+                    chk.ob("C20.signalling", "%s path %d: a nested size that may be 0 (overflow) is not added up" % (ss.name, k), ok, e.ins.loc(),
+                           fn=ss.name, key="nested0:%d:%d" % (e.ins.id, j_),
+                           detail="" if ok else "operand %d of the signalling add is the size of a nested item; the add does not answer 0 for a zero "
+                                                "there and the path has not tested it: an overflowing member is counted as 0 bytes" % j_,
+                           path=pa.block_lines() if not ok else None)
     nss = len(list(ss.calls("_cbor_safe_signaling_add"))) + sum(len(list(prog.funcs[h_].calls("_cbor_safe_signaling_add")))
                                                                 for h_ in eff.transitive_callees(ss.name)
                                                                 if h_ in prog.funcs and prog.funcs[h_].internal and h_ != "_cbor_safe_signaling_add")
@@ -216,6 +236,10 @@ def run(ctx, chk):
              "tracked modulo 2^32)")
     import rules as _rn
     _rn.check_narrowing(chk, "C20.narrowing", prog, eff=eff)
+    chk.rule("C20.signed-shift", "every left shift whose (promoted) left operand has a signed type keeps the operand's set bits below the sign "
+             "bit: operand width + distance <= 31 for int (decided on the clang AST, where the promotion is visible; a shift into the sign bit is an overflow of the signed type)")
+    import ast_rules as _ar
+    _ar.check_signed_shifts(chk, "C20.signed-shift", prog)
     chk.exhaustive = True
 
 
@@ -312,6 +336,18 @@ def classify_ir(prog, f, i):
                             c = blk.term.operands[0]
                             if isinstance(c, Inst) and c.op == "icmp" and c.pred == "ult" and strip_casts(c.operands[0]) is other:
                                 return ("6-counted-induction", "counter incremented at most once per iteration of a counted loop")
+    # 6b: count-down `while (n--)`: the counter is tested against zero in its loop and the decremented value feeds nothing but
+    # the counter itself (the value computed on the exit edge - 0 - 1 - is dead)
+    if i.op == "add" and isinstance(b, Const) and b.v == SIZE_MAX and isinstance(a, Inst) and a.op == "phi":
+        hdr = a.block
+        loops = f.loops()
+        if hdr.id in loops and all(u is a for u in f.users(i)):
+            for blk in f.blocks:
+                if blk.id in loops[hdr.id] and blk.insts and blk.term.op == "br" and len(blk.succs) == 2:
+                    c = blk.term.operands[0]
+                    if isinstance(c, Inst) and c.op == "icmp" and c.pred in ("ne", "eq", "ugt") and strip_casts(c.operands[0]) is a and \
+                            isinstance(c.operands[1], Const) and c.operands[1].v == 0:
+                        return ("6-counted-induction", "count-down counter tested against zero; the decremented value only feeds the counter")
     # 10: non-size counters, by the field they load
     st, idx = _field_of_load(prog, a)
     if isinstance(b, Const) and (b.v == 1 or b.v == SIZE_MAX):
